@@ -15,6 +15,7 @@ struct Faults
   i64 short_read_max = 0;      // >0: every read returns at most this many bytes
   i64 eintr_every = 0;         // >0: every k-th read call first fails once with EINTR
   i64 eio_at_read = -1;        // read call index (per op) from which reads fail with EIO
+  std::map<int, i64> task_eio_at_read; // thread mode: simulated task -> index of ITS read call from which reads fail with EIO
   // opens
   std::map<std::string, int> open_errno; // path -> errno to fail fopen with
   // writes
